@@ -15,13 +15,13 @@ from ..model import cap, tls, net
 PROP = "C11"
 LEVEL = "fault_enumeration"
 
-BASES = {"small": b"\x00\x01" * 3, "ffff": b"\xff\xff" * 40, "mixed": bytes(range(7, 87))}
+BASES = {"tiny": b"", "small": b"\x00\x01" * 3, "ffff": b"\xff\xff" * 40, "mixed": bytes(range(7, 87))}
 
 
 def describe(tier):
     q = tier == "quick"
     return {
-        "rule": "F: for ipver x proto x parity x " + ("2" if q else "3") + " base payloads, a 16-bit payload word takes all 65536 values; "
+        "rule": "F (plus the same sweep on frames carrying Ethernet padding or a 4-byte FCS trailer): for ipver x proto x parity x " + ("2" if q else "3") + " base payloads, a 16-bit payload word takes all 65536 values; "
                 "each packet is evaluated with its correct checksum (sender rule incl. UDP 0->0xffff) and with " + ("2" if q else "4") +
                 " wrong values that fail the receiver test; P: all 256 subsets of 8 designated packets corrupted (payload byte "
                 "flipped without fixing the checksum / checksum field changed). non-trivial: F - a packet whose folded sum needed "
@@ -48,6 +48,12 @@ def cases(tier, seed):
                 for b in bases:
                     for chunk in range(8):
                         yield {"layer": "F", "v6": v6, "proto": proto, "odd": odd, "base": b, "chunk": chunk, "wrong": 2 if q else 4}
+                if not odd or not q:
+                    # frames with a link-layer trailer; the 'tiny' base keeps IPv4 frames below the 60-byte Ethernet minimum
+                    for tr in ("pad", "fcs"):
+                        for chunk in (range(0, 8, 4) if q else range(8)):
+                            yield {"layer": "F", "v6": v6, "proto": proto, "odd": odd, "base": "tiny", "chunk": chunk, "wrong": 1,
+                                   "trailer": tr}
     for part in range(16):
         yield {"layer": "P", "part": part, "seed": seed}
 
@@ -74,11 +80,17 @@ def run_f(case):
     for w in range(lo, lo + 8192):
         payload = struct.pack("!H", w) + base + (b"\x5a" if odd else b"")
         frame = net.build_frame(src, dst, proto, payload, seq=0x01020304, ack=0x0a0b0c0d)
+        # link-layer trailer: Ethernet padding of short frames / a captured frame check sequence (not part of the IP packet)
+        trailer = case.get("trailer")
+        if trailer == "pad":
+            frame = frame + b"\x00" * max(1, 60 - len(frame))
+        elif trailer == "fcs":
+            frame = frame + b"\xde\xad\xbe\xef"
         pk = Packet(frame, 1.0)
         tr = pk.tcp if proto == "tcp" else pk.udp
         correct = tr.sum
         # how many folds did the sum need (for the non-triviality rule)
-        seg = frame[14 + (40 if v6 else 20):]
+        seg = net.build_frame(src, dst, proto, payload, seq=0x01020304, ack=0x0a0b0c0d)[14 + (40 if v6 else 20):]
         raw = sum(struct.unpack("!%dH" % ((len(seg) + 1) // 2), seg + (b"\x00" if len(seg) & 1 else b"")))
         variants = [(correct, True)]
         for wv in ((correct ^ 1), (correct ^ 0x8000), (correct + 1) & 0xFFFF, (~correct) & 0xFFFF)[:case["wrong"]]:
